@@ -16,3 +16,8 @@ open Martian.Props.C18
 #print axioms binary_searches_are_linear
 #print axioms fresh_context_ok
 #print axioms accepted_applies_only_to_later_conns
+#print axioms interleaved_delivered_prefix
+#print axioms configure_ok_lastMod
+#print axioms interleaved_accepted_applies_only_to_later_conns
+#print axioms old_conn_round_inert
+#print axioms stamp_at_request_start_counterexample
